@@ -2,9 +2,11 @@
 
 from __future__ import annotations
 
+import ast
+
 from ..linform import lin, show_lin
 from ..program import AnalysisError
-from ..rules import is_call, is_mcall, mcalls, mentions, calls
+from ..rules import is_call, is_mcall, mcalls, mentions, mentions_any, calls
 from ..terms import C, Evaluator, G, P, is_t, mk_proj, show, subterms
 from .common import Obs, arms_of, call0, choices_of, cond_has, ctor_fields, is_zero, retval_of, score_of, single, tuple_n
 
@@ -252,9 +254,20 @@ def analyse(obs: Obs, prog):
             inst = "Distribution.edit_regenerate/unselected"
             f = ctor_fields(prog, tr, "DistributionTrace", inst)
             pr = f.get("args")
-            ass = mk_proj(("call", ("attr", SELF, "assess"), (OLDC, pr), ()), 0)
+            # the kept value is re-scored through the interface EVERY Distribution implements (estimate_logpdf, as edit_update does) - `assess` exists on
+            # ExactDensity only (the base method raises NotImplementedError), so Marginal / Algorithm / DiscreteHMM sites could not be regenerated around
+            ass = ("call", ("attr", SELF, "estimate_logpdf"), (P("key"), call0(OLDC, "get_value"), ("star", pr)), ())
+            base_assess = prog.find_method(D, "assess")
+            only_exact = base_assess is not None and base_assess[0].name == "Distribution" and all(isinstance(st, ast.Raise) or (isinstance(st, ast.Expr) and isinstance(st.value, ast.Constant)) for st in base_assess[1].body)
+            used_assess = mentions_any(f.get("score"), lambda x: is_mcall(x, "assess") and x[1][1] == SELF)
+            obs.add({"C07", "C01"}, "REQ-INTERFACE", inst + "/interface", not (used_assess and only_exact), construct="self.assess on the base Distribution",
+                    derived=f"score = {show(f.get('score'))[:160]}; Distribution.assess {'only raises NotImplementedError (ExactDensity alone overrides it)' if only_exact else 'is implemented'}",
+                    expected="self.estimate_logpdf(key, old value, *new primals) - the density interface of every Distribution", where=w)
+            ass_alt = mk_proj(("call", ("attr", SELF, "assess"), (OLDC, pr), ()), 0)  # the same number for an ExactDensity; REQ-INTERFACE judges its availability
+            if f.get("score") == ass_alt:
+                ass = ass_alt
             obs.add({"C07", "C01"}, "TRACE-SCORE", inst + "/trace", f.get("score") == ass and f.get("value") == call0(OLDC, "get_value") and is_call(pr, "tree_primal"), derived=tr,
-                    expected="old choices re-assessed at the new primals", where=w)
+                    expected="old value re-scored at the new primals: estimate_logpdf(key, old value, *primals)", where=w)
             form = lin(wt)
             obs.add({"C07"}, "WEIGHT-REGEN", inst + "/weight", form == {frozenset([ass]): 1, frozenset([OLD]): -1}, derived=show_lin(form), expected="new score - old score", where=w)
             obs.add({"C08", "C07"}, "TAG-NOCHANGE-PROV", inst + "/retdiff", is_tag(rd, "no_change", retval_of(P("trace"))), derived=rd, expected="no_change(previous retval)", where=w)
